@@ -94,8 +94,8 @@ class C16(Property):
         "target locations within 1e-9 (relative to the grid extent) of the hull boundary are unconstrained for linear regridding",
         "sources keep >= dim+2 unmasked, affinely independent locations (degenerate triangulations are out of domain)",
     )
-    cases = {"quick": 3000, "thorough": 30000}
-    min_nontrivial = {"quick": 1200, "thorough": 8000}
+    cases = {"quick": 3000, "thorough": 200000}
+    min_nontrivial = {"quick": 1200, "thorough": 50000}
 
     def gen(self, rnd, i, tier):
         method = "nearest" if i % 2 == 0 else "linear"
